@@ -405,8 +405,11 @@ def impl_prune(ford, P, d: Path):
             proj = Project(make_settings(ford, d, P["config"]))
             pre = walk_objects(proj, keys, unknown, objs)
             proj.correlate()
-            post = walk_objects(proj, keys, unknown)
+            post_objs = {}
+            post = walk_objects(proj, keys, unknown, post_objs)
             links = impl_links(proj, objs, P)
+            bind_links = impl_bind_links(post_objs, keys, P)
+            node_urls = impl_node_urls(objs, P)
     except Exception as e:  # noqa
         return {"error": f"{type(e).__name__}: {e}"}
     pages = []
@@ -418,7 +421,88 @@ def impl_prune(ford, P, d: Path):
             else:
                 pages.append(i)
     pages += [keys[f.name] for f in proj.files]
-    return {"pre": pre, "post": post, "pages": sorted(pages), "unknown": unknown, "links": links}
+    return {"pre": pre, "post": post, "pages": sorted(pages), "unknown": unknown, "links": links,
+            "bind_links": bind_links, "node_urls": node_urls}
+
+
+_MACROS = {}
+BIND_NAME_RE = re.compile(r"""<strong>\s*(?:<a\s+href=["']([^"']*)["']\s*>)?\s*([^<\s]+)\s*(?:</a>)?\s*</strong>""")
+
+
+def macros_module(page_url):
+    """`macros.html` of the FORD under test, loaded through FORD's own Jinja2 environment (its filters `relurl`,
+    `meta`, its tests and globals) - as an overlay with the loader `Documentation.__init__` installs"""
+    from translate import c05_probe as PR
+
+    if "env" not in _MACROS:
+        _MACROS["env"] = PR.template_env()
+    return _MACROS["env"].get_template("macros.html").make_module({"page_url": page_url})
+
+
+def impl_bind_links(post_objs, keys, P):
+    """The summary card of every type that survived `prune()`, rendered by the real macro `type_summary` on the real
+    objects: which binding names are links, and into the page of which type.
+    -> sorted [(type id, binding id, id of the type whose page is linked | page path)] or 'error: ...'"""
+    import pathlib
+
+    byid = G.index(P)
+    type_pages = {page_of(e): i for i, e in byid.items() if e["kind"] == "type"}
+    out = set()
+    mod = None
+    _MACROS["types_rendered"] = 0
+    for i, obj in sorted(post_objs.items()):
+        if byid[i]["kind"] != "type" or not getattr(obj, "boundprocs", None):
+            continue
+        _MACROS["types_rendered"] += 1
+        if mod is None:
+            mod = macros_module(pathlib.Path(obj.base_url) / "module" / "x.html")
+        names = {tb.name: keys.get(tb.name) for tb in obj.boundprocs if not isinstance(tb, str)}
+        try:
+            html = str(mod.type_summary(obj))
+        except Exception as ex:  # noqa: BLE001
+            return f"error: type_summary of {obj.name}: {type(ex).__name__}: {ex}"
+        for m in BIND_NAME_RE.finditer(html):
+            href, name = m.group(1), m.group(2).split("/")[-1]
+            if name not in names or href is None or "#boundprocedure-" not in href:
+                continue
+            page = href_page(href, "module") if href.startswith("..") else os.path.normpath(href.split("#")[0])
+            out.add((i, names[name], type_pages.get(page, page)))
+    return sorted(out, key=str)
+
+
+NODE_KINDS = ("file", "module", "submodule", "program", "blockdata", "type", "subroutine", "function", "modproc",
+              "generic", "iface", "absint", "boundproc")
+
+
+def impl_node_urls(objs, P):
+    """`ford.graphs.BaseNode(obj, graph_data)` - what every graph node class runs first - for the real object of every
+    entity of a kind the graphs make nodes of, as `correlate()` + `prune()` left it (`objs`: all entities found
+    before `correlate`, so the ones `prune()` removed are included: the graphs reach them through calls, `extends`,
+    component types).  -> sorted [(entity id, id of the entity whose page the node links to | page path)] or 'error: ...'"""
+    import ford.graphs as gr
+
+    byid = G.index(P)
+    pages = {}
+    for i, e in byid.items():
+        pg = page_of(e)
+        if pg is not None:
+            pages.setdefault(pg, i)
+    gd = gr.GraphData("../", False, False)
+    out = set()
+    for i, obj in sorted(objs.items()):
+        if byid[i]["kind"] not in NODE_KINDS:
+            continue
+        try:
+            node = gr.BaseNode(obj, gd)
+        except Exception as ex:  # noqa: BLE001
+            return f"error: BaseNode({type(obj).__name__} {getattr(obj, 'name', '?')}): {type(ex).__name__}: {ex}"
+        url = node.attribs.get("URL")
+        if url is None:
+            continue
+        page = os.path.normpath(url.split("#")[0])
+        page = page[3:] if page.startswith("../") else page
+        out.add((i, pages.get(page, page)))
+    return sorted(out, key=str)
 
 
 LK_RE = re.compile(r"""lk(\d+)x(\d+) <a(?:\s+href=["']([^"']*)["'])?\s*>([^<]*)</a>""")
@@ -499,13 +583,16 @@ def model_batch(drv, Ps, variant):
         if r[0] != "ok":
             out.append(None)
         else:
-            r = r + [""] * (6 - len(r))
+            r = r + [""] * (9 - len(r))
             per_page = {}
             for ent in [x for x in r[5].split(";") if x]:
                 pg, _, ids = ent.partition(":")
                 per_page[int(pg)] = sorted({int(x) for x in ids.split(".") if x})
             out.append({"survivors": parse_ids(r[1]), "visible": parse_ids(r[2]), "pages": parse_ids(r[3]),
-                        "shown": parse_ids(r[4]), "per_page": per_page})
+                        "shown": parse_ids(r[4]), "per_page": per_page,
+                        "bind_links": {g: sorted({tuple(int(x) for x in t.split(".")) for t in r[f].split(";") if t}, key=str)
+                                       for g, f in (("guarded", 6), ("unguarded", 7))},
+                        "node_urls": sorted({tuple(int(x) for x in t.split(".")) for t in r[8].split(";") if t}, key=str)})
     # the `[[name]]` links of the doc comments of the survivors, resolved by the model: as the link extension
     # is ("asis") and with the test that the target's page is written ("repaired")
     for lv in LINK_VARIANTS:
@@ -615,43 +702,70 @@ def features(P):
 
 # --------------------------------------------------------------------------- streams
 
-def micro_stream(ford, drv, rng, n, rep):
-    """`_set_display` on a stub vs `setDisplay`."""
+def micro_stream(ford, drv, rng, n, rep, stats=None):
+    """`_set_display` vs `setDisplay`, on copies of *real* objects: one of every class of the translator's probe
+    project (variable, procedures, types, bindings, modules, ... and the source file) x `meta.proc_internals` off / on.
+    The model takes neither the class nor `proc_internals`: `display` is independent of both (property statement:
+    `display`, `proc_internals` and `hide_undoc` are separate options).  An exception of the implementation is a
+    disagreement, not a harness error."""
+    import copy
+
     import ford.sourceform as sf
+    from translate import c05_probe as PR
 
     words = ["public", "private", "protected", "none", "bogus", "PUBLIC", "None"]
 
-    class Meta:
-        pass
+    class Par:
+        def __init__(self, display):
+            self.display = display
 
-    reqs, exp = [], []
+    cx = PR.Ctx()
+    try:
+        insts = {c: o for c, o in sorted(cx.by_class.items()) if hasattr(o, "_set_display") and hasattr(o, "meta")}
+    finally:
+        cx.close()
+    files = [c for c, o in insts.items() if isinstance(o, sf.FortranSourceFile)]
+    procs = [c for c, o in insts.items() if getattr(o, "obj", None) == "proc"]
+    others = [c for c in insts if c not in files and c not in procs]
+    hist = {}
+    reqs, exp, raised = [], [], 0
     for _ in range(n):
         is_file = rng.random() < 0.3
         parent = [rng.choice(words[:5]) for _ in range(rng.randint(0, 3))]
         md = [rng.choice(words) for _ in range(rng.choice([0, 0, 1, 1, 2, 3]))]
-        obj = (sf.FortranSourceFile if is_file else sf.FortranVariable).__new__(
-            sf.FortranSourceFile if is_file else sf.FortranVariable)
-        obj.meta = Meta()
+        cname = rng.choice(files) if is_file else rng.choice(procs if rng.random() < 0.5 else others)
+        pi = rng.random() < 0.5
+        hist[f"{cname}/proc_internals={'on' if pi else 'off'}"] = hist.get(f"{cname}/proc_internals={'on' if pi else 'off'}", 0) + 1
+        obj = copy.copy(insts[cname])
+        obj.meta = copy.copy(obj.meta)
         obj.meta.display = list(md)
+        obj.meta.proc_internals = pi
         if is_file:
             obj.parent = None
             obj.display = list(parent)
         else:
-            par = Meta()
-            par.display = list(parent)
-            obj.parent = par
+            obj.parent = Par(list(parent))
             obj.display = ["stale"]
-        obj._set_display()
-        reqs.append(["c05.setdisplay", "1" if is_file else "0", G.enc_words(parent), G.enc_words([m.lower() for m in md])])
-        exp.append(["ok", "+".join(WORD_CODE.get(w, "other") for w in obj.display)])
+        req = ["c05.setdisplay", "1" if is_file else "0", G.enc_words(parent), G.enc_words([m.lower() for m in md])]
+        try:
+            obj._set_display()
+            out = ["ok", "+".join(WORD_CODE.get(w, "other") for w in obj.display)]
+        except Exception as ex:  # noqa: BLE001
+            raised += 1
+            out = ["raised", type(ex).__name__]
+        reqs.append(req)
+        exp.append((out, cname, pi))
     got = drv.batch(reqs)
     bad = 0
-    for r, e, g in zip(reqs, exp, got):
+    for r, (e, cname, pi), g in zip(reqs, exp, got):
         g = g + [""] * (2 - len(g))
         if e != g[:2]:
             bad += 1
-            rep.tie_broken(f"correspondence micro/_set_display: model {g} vs implementation {e} on {r[1:]}",
-                           {"stream": "micro", "request": r, "impl": e, "model": g})
+            rep.tie_broken(f"correspondence micro/_set_display: model {g} vs implementation {e} on {r[1:]} "
+                           f"({cname}, proc_internals {'on' if pi else 'off'})",
+                           {"stream": "micro", "request": r, "impl": e, "model": g, "class": cname, "proc_internals": pi})
+    if stats is not None:
+        stats["micro_histogram"] = dict(sorted(hist.items()))
     return len(reqs), bad
 
 
@@ -732,7 +846,7 @@ def oracle_mode(why):
     return "page" if why.startswith("page for") else "leak"
 
 
-def prune_stream(ford, drv, rng, n, rep, stats, d, lrng=None, xrng=None):
+def prune_stream(ford, drv, rng, n, rep, stats, d, lrng=None, xrng=None, hrng=None):
     Ps = []
     for k in range(n):
         risky = (k % 4 == 3)
@@ -746,6 +860,9 @@ def prune_stream(ford, drv, rng, n, rep, stats, d, lrng=None, xrng=None):
     if lrng is not None:
         for P in Ps:
             G.decorate(P, lrng)
+    if hrng is not None:
+        # round 6: type hierarchies (appended, own rng: the cases above stay what they were)
+        Ps += [G.gen_hierarchy(hrng) for _ in range(max(1, n // 8))]
     m_asis = model_batch(drv, Ps, "asis")
     m_rep = model_batch(drv, Ps, "repaired")
     agree = {"asis": 0, "repaired": 0}
@@ -754,6 +871,10 @@ def prune_stream(ford, drv, rng, n, rep, stats, d, lrng=None, xrng=None):
     lagree = {(a, b): 0 for a in ("asis", "repaired") for b in LINK_VARIANTS}
     ldiffer = {(a, b): [] for a in ("asis", "repaired") for b in LINK_VARIANTS}
     ldiscr = 0
+    nagree = {"asis": 0, "repaired": 0}
+    ndiffer = {"asis": [], "repaired": []}
+    bagree = {"asis": 0, "repaired": 0}
+    bdiffer = {"asis": [], "repaired": []}
     for k, P in enumerate(Ps):
         im = impl_prune(ford, P, d)
         if "error" in im:
@@ -807,6 +928,78 @@ def prune_stream(ford, drv, rng, n, rep, stats, d, lrng=None, xrng=None):
                         "files": G.render_project(P), "project": G.strip(P)})
             if (m.get("links") or {}).get("asis") != (m.get("links") or {}).get("repaired") and name == "asis":
                 ldiscr += 1
+        # binding names that are links in type summaries (real macro on the real objects vs `bindLinksOf`)
+        bl = im["bind_links"]
+        if isinstance(bl, str):
+            rep.tie_broken(f"prune stream: rendering the type summaries of case {k} failed: {bl}",
+                           {"stream": "prune", "case": k, "files": G.render_project(P)})
+        else:
+            bstats = stats.setdefault("bind_links", {"types_rendered": 0, "links": 0, "links_into_another_type": 0,
+                                                      "model_agrees": 0, "model_differs": 0, "guard_discriminates": 0,
+                                                      "oracle_failures": 0})
+            bstats["links"] += len(bl)
+            bstats["types_rendered"] += _MACROS.get("types_rendered", 0)
+            bstats["links_into_another_type"] += sum(1 for t, b, dd in bl if t != dd)
+            for name, m in (("asis", ma), ("repaired", mr)):
+                if m["bind_links"]["guarded"] != m["bind_links"]["unguarded"] and name == "asis":
+                    bstats["guard_discriminates"] += 1
+                if [tuple(x) for x in m["bind_links"]["guarded"]] == [tuple(x) for x in bl]:
+                    bagree[name] += 1
+                elif len(bdiffer[name]) < 3:
+                    bdiffer[name].append({"stream": "prune", "case": k, "variant": name, "config": P["config"],
+                                          "bind_links [type, binding, declaring type]": {
+                                              "model (macro tests the declaring type)": m["bind_links"]["guarded"],
+                                              "model (no test)": m["bind_links"]["unguarded"], "implementation": bl},
+                                          "files": G.render_project(P), "project": G.strip(P)})
+            # oracle (statement: "links ... never point at pages of unselected entities"): the page a binding's
+            # name links into is the page of a selected type that has a page
+            bsel, _ = spec_selected(P)
+            byid_k = G.index(P)
+            for t, b, dd in bl:
+                if isinstance(dd, int) and dd in bsel and has_own_page(byid_k[dd], byid_k):
+                    continue
+                tn = byid_k[dd]["name"] if isinstance(dd, int) else dd
+                why = (f"the summary of type {byid_k[t]['name']} links the name of binding {byid_k[b]['name']} to the page of "
+                       f"{tn}, " + ("which is not selected" if isinstance(dd, int) and dd not in bsel else "which has no page"))
+                stats["oracle_failures"] += 1
+                bstats["oracle_failures"] += 1
+                rep.failing_input({"stream": "prune", "case": k, "why": why, "config": P["config"],
+                                   "files": G.render_project(P), "entity": b}, None)
+        # graph nodes that carry a URL (real `BaseNode` on the real objects, removed ones included, vs `nodeUrlsOf`)
+        nu = im["node_urls"]
+        if isinstance(nu, str):
+            rep.tie_broken(f"prune stream: making graph nodes for case {k} failed: {nu}",
+                           {"stream": "prune", "case": k, "files": G.render_project(P)})
+        else:
+            nstats = stats.setdefault("graph_nodes", {"nodes": 0, "with_url": 0, "of_removed_entities": 0,
+                                                       "bindings_with_url": 0, "oracle_failures": 0})
+            byid_n = G.index(P)
+            alive = set(post_ids)
+            nstats["nodes"] += sum(1 for e in byid_n.values() if e["kind"] in NODE_KINDS)
+            nstats["of_removed_entities"] += sum(1 for i, e in byid_n.items() if e["kind"] in NODE_KINDS and i not in alive)
+            nstats["with_url"] += len(nu)
+            nstats["bindings_with_url"] += sum(1 for i, _ in nu if byid_n[i]["kind"] == "boundproc")
+            for name, m in (("asis", ma), ("repaired", mr)):
+                if [tuple(x) for x in m["node_urls"]] == [tuple(x) for x in nu]:
+                    nagree[name] += 1
+                elif len(ndiffer[name]) < 3:
+                    ndiffer[name].append({"stream": "prune", "case": k, "variant": name, "config": P["config"],
+                                          "graph node URLs [entity, entity whose page is linked]": {
+                                              "only in the model": [x for x in m["node_urls"] if tuple(x) not in set(nu)],
+                                              "only in the implementation": [x for x in nu if tuple(x) not in {tuple(y) for y in m["node_urls"]}]},
+                                          "files": G.render_project(P), "project": G.strip(P)})
+            # oracle (statement: "graph nodes never point at pages of unselected entities")
+            nsel, _ = spec_selected(P)
+            for i, pg in nu:
+                if isinstance(pg, int) and pg in nsel and has_own_page(byid_n[pg], byid_n):
+                    continue
+                tn = f"{byid_n[pg]['kind']} {byid_n[pg]['name']}" if isinstance(pg, int) else pg
+                why = (f"the graph node of {byid_n[i]['kind']} {byid_n[i]['name']} links to the page of {tn}, "
+                       + ("which is not selected" if isinstance(pg, int) and pg not in nsel else "which has no page"))
+                stats["oracle_failures"] += 1
+                nstats["oracle_failures"] += 1
+                rep.failing_input({"stream": "prune", "case": k, "why": why, "config": P["config"],
+                                   "files": G.render_project(P), "entity": i}, None)
         # property oracle on the real objects
         for eid, why in oracle_objects(P, post_ids, im["pages"]):
             cls = classify(P, eid, why, mode=oracle_mode(why))
@@ -837,6 +1030,19 @@ def prune_stream(ford, drv, rng, n, rep, stats, d, lrng=None, xrng=None):
             rep.tie_broken(f"correspondence prune: model ({better}) and implementation differ on case {dcase['case']}",
                            dcase)
         stats["agree"] = agree
+    # binding names in type summaries: the macro as the model has it (`bound_declaration_probe_matches_model`)
+    if variant is not None and "bind_links" in stats:
+        stats["bind_links"]["model_agrees"] = bagree[variant]
+        stats["bind_links"]["model_differs"] = len(bdiffer[variant])
+        for dcase in bdiffer[variant][:3]:
+            rep.tie_broken(f"correspondence prune: the binding names the model links in type summaries and the ones the "
+                           f"real `type_summary` macro links differ on case {dcase['case']}", dcase)
+    if variant is not None and "graph_nodes" in stats:
+        stats["graph_nodes"]["model_agrees"] = nagree[variant]
+        stats["graph_nodes"]["model_differs"] = len(ndiffer[variant])
+        for dcase in ndiffer[variant][:3]:
+            rep.tie_broken(f"correspondence prune: the graph nodes the model gives a URL and the ones the real `BaseNode` "
+                           f"gives one differ on case {dcase['case']}", dcase)
     # which link extension is this: with or without the test that the target's page is written
     stats["link_discriminating"] = ldiscr
     lvariant = None
@@ -885,7 +1091,7 @@ def run_e2e_case(args):
     pf = e2e.write_project(root, files, opts, text="Project text.\n")
     res = e2e.run_inprocess(pf)
     out = {"rc": res["rc"], "exc": res.get("exc"), "trace": res.get("trace", "")[-1500:], "tracers": {}, "pages": [],
-           "bad_hrefs": [], "links": []}
+           "bad_hrefs": [], "links": [], "bind_links": []}
     if res["rc"] != 0 or res["out"] is None:
         return out
     outdir = Path(res["out"])
@@ -903,6 +1109,10 @@ def run_e2e_case(args):
         out["tracers"][rel] = ids
         # the `[[name]]` links of the generated comments carry a marker word: they are attributed to the
         # comment they were written in and judged one by one; all other hrefs are checked below
+        # names of type-bound procedures printed as links (`bound_declaration(tb, link_name=True)`)
+        for m in BIND_NAME_RE.finditer(text):
+            if m.group(1) and "#boundprocedure-" in m.group(1) and not m.group(1).startswith("http"):
+                out["bind_links"].append([rel, m.group(2).split("/")[-1], href_page(m.group(1), os.path.dirname(rel))])
         for m in LK_RE.finditer(text):
             tgt = None if m.group(3) is None else href_page(m.group(3), os.path.dirname(rel))
             key = (int(m.group(1)), int(m.group(2)), tgt)
@@ -1023,6 +1233,16 @@ def e2e_stream(ford, drv, rng, n, rep, stats, d, variant, graphs, workers, lrng=
                     rep.tie_broken(f"correspondence e2e: tracer words on {rel} differ from what the model says the page shows (case {k})",
                                    dict(base, page=rel, only_on_page=sorted(set(got_pg) - set(want_pg)),
                                         only_in_model=sorted(set(want_pg) - set(got_pg))))
+            # binding names that are links in the type summaries of the site == `bindLinksOf` (macro as it is)
+            want_bl = sorted({(nearest_page(byid[t], byid), byid[b]["name"], page_of(byid[dd]))
+                              for t, b, dd in mo["bind_links"]["guarded"]})
+            got_bl = sorted({tuple(x) for x in res.get("bind_links", [])})
+            stats["e2e_bind_links"] = stats.get("e2e_bind_links", 0) + len(got_bl)
+            if want_bl != got_bl:
+                ncorr += 1
+                rep.tie_broken(f"correspondence e2e: the binding names the site links in type summaries differ from the model's on case {k}",
+                               dict(base, only_on_site=[x for x in got_bl if x not in want_bl],
+                                    only_in_model=[x for x in want_bl if x not in got_bl]))
         # ---- property oracle
         sel, ref = spec_selected(P)
         fails = []
@@ -1306,11 +1526,12 @@ def run(tier: str, seed: int, replay: str | None = None) -> int:
              "oracle_failures": 0, "e2e_cases": 0}
     if replay:
         return run_replay(ford, drv, rep, lean, replay)
-    ev_micro, bad_micro = micro_stream(ford, drv, rng, n_micro, rep)
+    ev_micro, bad_micro = micro_stream(ford, drv, rng, n_micro, rep, stats)
     with common.scratch_dir() as d:
         (d / "p").mkdir()
         variant = prune_stream(ford, drv, rng, n_prune, rep, stats, d / "p",
-                               lrng=random.Random(seed * 15485863 + 23), xrng=random.Random(seed * 49979687 + 31))
+                               lrng=random.Random(seed * 15485863 + 23), xrng=random.Random(seed * 49979687 + 31),
+                               hrng=random.Random(seed * 86028121 + 41))
         replay_witnesses(ford, rep, d / "p", variant, stats)
         replay_link_witnesses(ford, rep, d / "p", stats)
         t0 = time.time()
@@ -1345,6 +1566,10 @@ def run(tier: str, seed: int, replay: str | None = None) -> int:
         e2e_graph_cases=stats.get("e2e_graph_cases"),
         e2e_feature_histogram=dict(sorted(stats["e2e_features"].items())),
         e2e_wall_s=stats.get("e2e_wall_s"),
+        micro_histogram=stats.get("micro_histogram"),
+        binding_name_links=stats.get("bind_links"),
+        graph_nodes=stats.get("graph_nodes"),
+        e2e_binding_name_links_compared=stats.get("e2e_bind_links", 0),
         witnesses={k: v for k, v in stats.items() if k.startswith("witness_")},
     )
     rep.assumptions += [
